@@ -529,7 +529,7 @@ def comments(repo, rep, rule):
         for i, d in enumerate(bad[:4]):
             rep.fail(rule, 'comment-lines-start-with-hash' if i == 0 else 'comment-lines-start-with-hash#%d' % (i + 1), f.where, d)
     else:
-        rep.check(ok >= 12, rule, 'comment-lines-start-with-hash', f.where, 'held on %d interpreted comment texts (all layouts)' % ok,
+        rep.check(ok >= 12 or bool(und), rule, 'comment-lines-start-with-hash', f.where, 'held on %d interpreted comment texts (all layouts)' % ok,
                   'only %d comment texts could be interpreted' % ok, nontrivial=True)
     for u in und[:4]:
         n += 1
